@@ -35,6 +35,10 @@ def run(repo, run, tier):
     retry_step(repo, run, rule_id="C03.10", strict=True)
     target_as_given(repo, run, m)
     committed_row_is_written(repo, run, m)
+    # 'times and states stay paired ... in one call or several': every exit of integrate() leaves buffers of exactly the recorded rows (trimmed in `finally`): spare rows
+    # kept between calls are written in place by the next call, also through a shallow copy of the system that still shares them
+    from .c12 import trim
+    trim(repo, run, m, rule_id="C03.14")
     # 'ends at the target', also through the facade and for decreasing spans: the step-clipping callback of solve_ivp keeps the SIGN of the step (a signed clip into
     # [min_step, max_step] turns a negative step into 0, and integrate()'s `dt != 0` guard then ends the run one step after t0, reporting success)
     from .c18 import clipping
@@ -555,10 +559,10 @@ def at_target(repo, run, m):
                                        "merely close to the current time is never reached, and the call still counts as successful" % ([a.split("@")[0][:70] for a in atoms],))
 
 
-def orientation_preserves_magnitude(repo, run, m):
+def orientation_preserves_magnitude(repo, run, m, rule_id="C03.9"):
     """ends at the target: the re-orientation of the step toward the target may only change the SIGN of dt.  `abs(dt) * sign(t1 - t0)` is a sign flip for t1 != t0
     but the ZERO step for t1 == t0 (sign(0) = 0): the loop guard `dt != 0` then ends the run where it stands, successfully."""
-    rid = run.rule("C03.9", "__fix_dt_dir stores only `self.__dt` or `-self.__dt` (a sign flip that cannot produce a zero step from a non-zero one)", floor=1)
+    rid = run.rule(rule_id, "__fix_dt_dir stores only `self.__dt` or `-self.__dt` (a sign flip that cannot produce a zero step from a non-zero one)", floor=1)
     fix = repo.get(DS, "OdeSystem.__fix_dt_dir")
     run.analysed_fn(DS, fix)
     sts = [st for st in ast.walk(fix) if isinstance(st, (ast.Assign, ast.AugAssign)) and any(
@@ -569,7 +573,7 @@ def orientation_preserves_magnitude(repo, run, m):
         ok = isinstance(st, ast.Assign) and src(st.value) in ("-self.__dt", "self.__dt", "-1 * self.__dt", "self.__dt * -1", "-1.0 * self.__dt")
         run.judged(rid, "__fix_dt_dir: %s" % src(st), ok=ok)
         if not ok:
-            run.report("C03.9", DS, st, "__fix_dt_dir computes the oriented step as `%s` instead of flipping the sign of the stored one: when the two times coincide (the run is "
+            run.report(rule_id, DS, st, "__fix_dt_dir computes the oriented step as `%s` instead of flipping the sign of the stored one: when the two times coincide (the run is "
                                         "exactly at the constructor's tf, or t0 == tf) the factor sign(0) = 0 makes the step zero, the step loop's `dt != 0` guard ends the run "
                                         "short of the target and later calls divide by it" % src(st.value if isinstance(st, ast.Assign) else st))
 
